@@ -262,7 +262,7 @@ Qed.
 Lemma close_busy_ok s c :
   busy s = Some c -> ~ In c (chclosed s) ->
   close_busy s = mkst (queue s) (busy s) (c :: chclosed s) (nextch s) (closed s) (flag s) (nextop s)
-                      (accepted s) (ran s) (panicked s) (cb s) (clients s) (workers s).
+                      (accepted s) (ran s) (panicked s) (cb s) (clients s) (workers s) (live s).
 Proof.
   intros Hb Hn. unfold close_busy. rewrite Hb.
   destruct (memb c (chclosed s)) eqn:Hm; auto. apply memb_In in Hm. tauto.
@@ -335,6 +335,10 @@ Proof.
           destruct i_clients0 as (H1 & _); congruence.
 Qed.
 
+(* the goroutine count is a ghost: the invariant does not read it *)
+Lemma retire_inv fx s : Inv fx s -> Inv fx (retire s).
+Proof. intros I. destruct I. constructor; simpl; auto. Qed.
+
 Lemma set_flag_inv fx s b : Inv fx s -> Inv fx (set_flag s b).
 Proof. intros I. destruct I. constructor; simpl; auto. Qed.
 
@@ -385,7 +389,7 @@ Proof.
     assert (I1 : Inv fx (setw (set_flag s false) j WDeferred)).
     { eapply (wmove_inv fx s _ j WFlagged WDeferred); eauto; simpl; auto using incl_refl. }
     simpl. destruct (cb s); auto. apply try_enqueue_inv; auto.
-  - inversion Hs; subst. apply deferred_inv; auto.
+  - inversion Hs; subst. apply retire_inv. apply deferred_inv; auto.
   - discriminate.
 Qed.
 
@@ -505,6 +509,123 @@ Qed.
 Lemma no_panic fx cbk cls sch :
   Forall initial_cpc cls -> panicked (run fx (init cbk cls) sch) = false.
 Proof. intros Hi. apply (i_nopanic _ _ (reach_inv fx cbk cls sch Hi)). Qed.
+
+(* ---------- c05_one_worker: the goroutine counter ---------- *)
+
+(* [live] is bumped by every `go o.start()` and dropped when a start()
+   goroutine returns; it counts the live entries of the worker list *)
+Definition LInv (s : st) : Prop := live s = count_live (workers s).
+
+Lemma count_live_upd ws j w w' :
+  nth_error ws j = Some w ->
+  count_live (upd ws j w') + (if is_live w then 1 else 0) =
+  count_live ws + (if is_live w' then 1 else 0).
+Proof.
+  revert j. induction ws as [|h t IH]; intros [|j]; simpl; try discriminate.
+  - intros H. inversion H; subst. rewrite !count_live_cons. lia.
+  - intros H. specialize (IH _ H). rewrite !count_live_cons. lia.
+Qed.
+
+Lemma try_enqueue_linv s d : LInv s -> LInv (fst (try_enqueue s d)).
+Proof.
+  unfold LInv, try_enqueue. intros H. destruct (closed s); simpl; auto.
+  destruct (busy s); simpl; auto.
+  rewrite count_live_app, H. change (count_live [WStart]) with 1. lia.
+Qed.
+
+(* a live worker moves to another live program counter *)
+Lemma setw_live_linv s j w w' :
+  LInv s -> nth_error (workers s) j = Some w -> is_live w = true -> is_live w' = true ->
+  LInv (setw s j w').
+Proof.
+  unfold LInv. intros H Hn Hl Hl'. simpl.
+  pose proof (count_live_upd _ _ _ w' Hn) as Hc. rewrite Hl, Hl' in Hc. lia.
+Qed.
+
+Lemma deferred_live fx s :
+  (workers (deferred fx s) = workers s /\ live (deferred fx s) = live s) \/
+  (workers (deferred fx s) = workers s ++ [WStart] /\ live (deferred fx s) = S (live s)).
+Proof.
+  unfold deferred, close_busy. destruct fx; destruct (busy s); simpl;
+    repeat match goal with |- context [if ?b then _ else _] => destruct b; simpl end; auto.
+Qed.
+
+Lemma wstep_linv fx s j w s' :
+  LInv s -> nth_error (workers s) j = Some w -> wstep fx s j w = Some s' -> LInv s'.
+Proof.
+  intros L Hn Hs.
+  assert (Hpop : is_live w = true ->
+            match queue s with
+            | [] => Some (setw s j WPopNil)
+            | (id, d) :: q => Some (setw (set_queue s q) j (WPopped id d))
+            end = Some s' -> LInv s').
+  { intros Hl H. destruct (queue s) as [|[id d] q]; inversion H; subst.
+    - eapply setw_live_linv; eauto.
+    - apply (setw_live_linv (set_queue s q) j w); auto. }
+  destruct w; simpl in Hs.
+  - apply Hpop; auto.
+  - inversion Hs; subst; clear Hs.
+    assert (L1 : LInv (setw (set_ran s (ran s ++ [id])) j WRan)).
+    { apply (setw_live_linv (set_ran s (ran s ++ [id])) j (WPopped id d)); auto. }
+    destruct d; auto. apply try_enqueue_linv; auto.
+  - apply Hpop; auto.
+  - inversion Hs; subst. eapply setw_live_linv; eauto. destruct (flag s); reflexivity.
+  - inversion Hs; subst; clear Hs.
+    assert (L1 : LInv (setw (set_flag s false) j WDeferred)).
+    { apply (setw_live_linv (set_flag s false) j WFlagged); auto. }
+    simpl. destruct (cb s); auto. apply try_enqueue_linv; auto.
+  - inversion Hs; subst; clear Hs. unfold LInv in *. simpl.
+    pose proof (nth_error_lt _ _ _ Hn) as Hj.
+    pose proof (live_bound _ _ _ Hn eq_refl) as Hb.
+    pose proof (count_live_upd _ _ _ WExit Hn) as Hc. simpl in Hc.
+    destruct (deferred_live fx s) as [(Hw & Hl)|(Hw & Hl)]; rewrite Hw, Hl.
+    + lia.
+    + rewrite upd_app_l by auto. rewrite count_live_app.
+      change (count_live [WStart]) with 1. lia.
+  - discriminate.
+Qed.
+
+Lemma cstep_linv s i c s' : LInv s -> cstep s i c = Some s' -> LInv s'.
+Proof.
+  intros L Hs.
+  destruct c as [d| |[id|]| |[ch|]| | |[id|]|[|]|]; simpl in Hs; try discriminate.
+  - inversion Hs; subst. apply try_enqueue_linv. exact L.
+  - destruct (try_enqueue s 0) as [s1 r] eqn:He. inversion Hs; subst.
+    assert (L1 : LInv s1) by (change s1 with (fst (s1, r)); rewrite <- He; apply try_enqueue_linv; auto).
+    exact L1.
+  - destruct (memb id (ran s)); inversion Hs; subst. exact L.
+  - inversion Hs; subst. exact L.
+  - destruct (closed s); inversion Hs; subst; exact L.
+  - destruct (memb ch (chclosed s)); inversion Hs; subst. exact L.
+  - inversion Hs; subst. exact L.
+  - inversion Hs; subst. exact L.
+Qed.
+
+Lemma step_linv fx s t s' : LInv s -> step fx s t = Some s' -> LInv s'.
+Proof.
+  intros L Hs. destruct t as [i|j]; simpl in Hs.
+  - destruct (nth_error (clients s) i) eqn:Hn; [|discriminate]. eapply cstep_linv; eauto.
+  - destruct (nth_error (workers s) j) eqn:Hn; [|discriminate]. eapply wstep_linv; eauto.
+Qed.
+
+Lemma run_linv fx s sch : LInv s -> LInv (run fx s sch).
+Proof.
+  revert s. induction sch as [|t r IH]; intros s L; simpl; auto.
+  apply IH. unfold step_or_skip. destruct (step fx s t) eqn:Hs; auto. eapply step_linv; eauto.
+Qed.
+
+(* at most one start() goroutine exists, the counter is exact, and busyCh is
+   non-nil exactly while one exists *)
+Lemma one_worker fx cbk cls sch :
+  Forall initial_cpc cls ->
+  let s := run fx (init cbk cls) sch in
+  live s <= 1 /\ live s = count_live (workers s) /\ (live s = 1 <-> busy s <> None).
+Proof.
+  intros Hi s. pose proof (reach_inv fx cbk cls sch Hi) as I. fold s in I.
+  assert (L : LInv s) by (apply run_linv; reflexivity).
+  unfold LInv in L. rewrite L, (i_live _ _ I).
+  destruct (busy s); repeat split; auto; try lia; try congruence; try discriminate.
+Qed.
 
 (* ---------- c05_order_once ---------- *)
 
